@@ -27,7 +27,7 @@ type mEntry struct {
 	Name                     string
 }
 
-func (e mEntry) stage() int       { return int(e.Flags>>12) & 3 }
+func (e mEntry) stage() int        { return int(e.Flags>>12) & 3 }
 func (e mEntry) assumeValid() bool { return e.Flags&0x8000 != 0 }
 func (e mEntry) extended() bool    { return e.Flags&0x4000 != 0 }
 func (e mEntry) ita() bool         { return e.XFlags&(1<<13) != 0 }
